@@ -41,7 +41,7 @@ RULE = (
     "x first / second half of the k, torn flavour): a random workload = open context + 2..4 operations "
     "(store_model_entry / store_input / store_final / database store / log_* with hostile message / "
     "store_annotation / store_metadata / retrievals) over 2..3 small NONMEM models, model 1 sharing model 0's "
-    "dataset (same file or a copy with equal content), 40% with ModelfitResults; EVERY mutation event k of the "
+    "dataset (same file or a copy with equal content), model 0 and 55% of the others with ModelfitResults; EVERY mutation event k of the "
     "workload is a crash point of exactly one of its sub-cases in each flavour "
     "(torn: every truncating/appending open); restart oracle evaluated once per distinct (directory tree, "
     "returned operations, in-flight operation). stratum 'restore' (20%) stores one model a second time under "
